@@ -36,6 +36,19 @@ def run(tier, seed):
     reps2, m2, viol2 = vc.rsched_scenarios(PID, "h_run2(asan+ubsan)", b2, sc2, d, workers=4)
     reps += reps2
     viol += viol2
+    if tier != "quick":
+        # the non-NDEBUG variant of the core (other struct lp_msg layout, the runtime's own API-contract assertions active:
+        # "Scheduling a message in the past!", SetState outside LP_INIT): also confirms that the models respect the contract
+        saved = list(vc.BASE_FLAGS)
+        vc.BASE_FLAGS[:] = [f for f in saved if f != "-DNDEBUG"]
+        try:
+            bd = hc.build(os.path.join(d, "dbg"), san=True)
+            scd = [hc.scen(f"dbg_m{i}", mm, T=2, ck=2, p=1, j=4, deadline=dl) for i, mm in enumerate(ms)]
+            repsd, md, viold = vc.rsched_scenarios(PID, "h_run(debug,asan+ubsan)", bd, scd, d, workers=4)
+        finally:
+            vc.BASE_FLAGS[:] = saved
+        reps += repsd
+        viol += viold
     m = vc.merge_rsched(reps)
     # ---- sequential enumerators on sanitized builds ----
     jobs = []
